@@ -4,7 +4,7 @@
 # usage: trymutant_alt.sh <patch.diff> <PROP> [tier] [seed]
 set -u
 here="$(cd "$(dirname "$0")" && pwd)"
-patch="$1"; prop="$2"; tier="${3:-quick}"; seed="${4:-1}"
+patch="$1"; [ "$patch" != "-" ] && patch="$(realpath "$patch")"; prop="$2"; tier="${3:-quick}"; seed="${4:-1}"
 alt="${MLV_ALT_DIR:-/tmp/mlv-alt}"
 wt="$alt/repo"
 mkdir -p "$alt"
